@@ -1,6 +1,7 @@
 package reqresp
 
 import (
+	"bytes"
 	"encoding/binary"
 	"errors"
 	"fmt"
@@ -16,6 +17,7 @@ import (
 	"pgregory.net/rapid"
 
 	"verif/harness/internal/evi"
+	"verif/harness/internal/rawpeer"
 	"verif/harness/internal/xcbor"
 )
 
@@ -32,6 +34,13 @@ type c24Op struct {
 	N        int    `json:"n,omitempty"`
 	K        int    `json:"k,omitempty"`
 	TxsN     int    `json:"txs_n,omitempty"`
+	// content of the reply: "" unique ids, "zeros" all-zero ids of size 0, "dups"
+	// k copies of one id, "sizes" unique ids with sizes 0 / 1 / 2^32-1
+	Flav string `json:"flav,omitempty"`
+	// NilEmpty: an empty reply is returned as a nil slice instead of an empty one
+	NilEmpty bool `json:"nil_empty,omitempty"`
+	// SizeBogus (raw client only): every size on the wire is 2^32 (beyond the field width)
+	SizeBogus bool `json:"size_bogus,omitempty"`
 	// raw-server family only: explicit acknowledgement on the wire and head widths
 	Ack    string `json:"ack,omitempty"` // decimal (may exceed uint64? no: fits int64/uint64)
 	Req    string `json:"req,omitempty"`
@@ -47,7 +56,17 @@ func (o c24Op) String() string {
 	case "wire":
 		return fmt.Sprintf("wire[%s b=%v ack=%s/w%d req=%s/w%d k=%d]", o.Class, o.Blocking, o.Ack, o.WidthA, o.Req, o.WidthR, o.K)
 	}
-	return fmt.Sprintf("ids(b=%v n=%d k=%d)", o.Blocking, o.N, o.K)
+	ext := ""
+	if o.Flav != "" {
+		ext += " " + o.Flav
+	}
+	if o.NilEmpty {
+		ext += " nil"
+	}
+	if o.SizeBogus {
+		ext += " size=2^32"
+	}
+	return fmt.Sprintf("ids(b=%v n=%d k=%d%s)", o.Blocking, o.N, o.K, ext)
 }
 
 func opsDesc(ops []c24Op) string {
@@ -89,7 +108,9 @@ func genN(rt *rapid.T) int {
 func genK(rt *rapid.T, n int, blocking, allowBig bool) int {
 	c := rapid.IntRange(0, 99).Draw(rt, "k_class")
 	switch {
-	case c < 5:
+	case c < 2:
+		return -2 // the callback fails with an ordinary error
+	case c < 6:
 		return -1 // stop sentinel
 	case c < 60:
 		m := n
@@ -125,6 +146,11 @@ func genOps(rt *rapid.T, maxOps int, allowBig bool) []c24Op {
 			}
 			if o.K > 60000 {
 				bigs++
+			}
+			if o.K >= 0 && o.K <= 600 {
+				o.Flav = rapid.SampledFrom([]string{"", "", "", "", "zeros", "dups", "sizes"}).Draw(rt, "flav")
+				o.NilEmpty = o.K == 0 && rapid.Bool().Draw(rt, "nil_empty")
+				o.SizeBogus = o.K > 0 && rapid.IntRange(0, 39).Draw(rt, "size_bogus") == 0
 			}
 		}
 		ops = append(ops, o)
@@ -176,8 +202,53 @@ func mkTxId(serial uint64) txsubmission.TxId {
 	return id
 }
 
+// idsFor builds the k ids of a reply whose first id has the given serial.
+func idsFor(first uint64, k int, flav string) []txsubmission.TxIdAndSize {
+	out := make([]txsubmission.TxIdAndSize, k)
+	for i := range out {
+		s := first + uint64(i)
+		switch flav {
+		case "zeros":
+			out[i] = txsubmission.TxIdAndSize{}
+		case "dups":
+			out[i] = txsubmission.TxIdAndSize{TxId: mkTxId(first), Size: uint32(100 + first%1000)}
+		case "sizes":
+			out[i] = txsubmission.TxIdAndSize{TxId: mkTxId(s), Size: []uint32{0, 1, math.MaxUint32}[i%3]}
+		default:
+			out[i] = txsubmission.TxIdAndSize{TxId: mkTxId(s), Size: uint32(100 + s%1000)}
+		}
+	}
+	return out
+}
+
+func sameIds(a, b []txsubmission.TxIdAndSize) bool {
+	if len(a) != len(b) {
+		return false
+	}
+	for i := range a {
+		if a[i].TxId != b[i].TxId || a[i].Size != b[i].Size {
+			return false
+		}
+	}
+	return true
+}
+
+func copyIds(a []txsubmission.TxIdAndSize) []txsubmission.TxIdAndSize {
+	return append([]txsubmission.TxIdAndSize(nil), a...)
+}
+
+var errCallback = errors.New("harness: the application callback failed")
+
+// replyPlan is what the outbound side does with the next request.
+type replyPlan struct {
+	K        int
+	Flav     string
+	NilEmpty bool
+}
+
 // cbEntry is one invocation of the outbound side's RequestTxIds callback.
 type cbEntry struct {
+	Ids        []txsubmission.TxIdAndSize // copy of what the callback returned
 	Blocking   bool
 	Ack, Req   uint16
 	Planned    bool
@@ -188,15 +259,55 @@ type cbEntry struct {
 type c24Client struct {
 	mu     sync.Mutex
 	log    []cbEntry
-	plan   *int // K for the next request (nil: none planned)
+	plan   *replyPlan // for the next request (nil: none planned)
 	serial uint64
 	txsLog int
+	// the slices handed to / received from the library, kept to the end
+	handedOut [][]txsubmission.TxIdAndSize
+	txsSeen   [][]txsubmission.TxId // as received by RequestTxsFunc
+	txsCopy   [][]txsubmission.TxId // copies taken at that time
 }
 
-func (c *c24Client) setPlan(k int) {
+func (c *c24Client) setPlan(k int) { c.setPlanOp(c24Op{K: k}) }
+
+func (c *c24Client) setPlanOp(o c24Op) {
 	c.mu.Lock()
-	c.plan = &k
+	c.plan = &replyPlan{K: o.K, Flav: o.Flav, NilEmpty: o.NilEmpty}
 	c.mu.Unlock()
+}
+
+// scribble overwrites every slice the callback handed to the library so far
+// (the library must have taken what it needs by the time the reply was sent).
+func (c *c24Client) scribble() {
+	c.mu.Lock()
+	defer c.mu.Unlock()
+	for _, sl := range c.handedOut {
+		for i := range sl {
+			sl[i].Size = 0xDEADBEEF
+			for j := range sl[i].TxId.TxId {
+				sl[i].TxId.TxId[j] = 0xEE
+			}
+		}
+	}
+	c.handedOut = nil
+}
+
+// txsChanged reports whether an id list received by RequestTxsFunc differs
+// from the copy taken when it was received.
+func (c *c24Client) txsChanged() (int, bool) {
+	c.mu.Lock()
+	defer c.mu.Unlock()
+	for i := range c.txsSeen {
+		if len(c.txsSeen[i]) != len(c.txsCopy[i]) {
+			return i, true
+		}
+		for j := range c.txsSeen[i] {
+			if c.txsSeen[i][j] != c.txsCopy[i][j] {
+				return i, true
+			}
+		}
+	}
+	return 0, false
 }
 
 func (c *c24Client) entries() []cbEntry {
@@ -211,30 +322,38 @@ func (c *c24Client) config() txsubmission.Config {
 			c.mu.Lock()
 			defer c.mu.Unlock()
 			e := cbEntry{Blocking: blocking, Ack: ack, Req: req}
-			k := 0
+			var pl replyPlan
 			if c.plan != nil {
 				e.Planned = true
-				k = *c.plan
+				pl = *c.plan
 				c.plan = nil
 			}
+			k := pl.K
 			if k < 0 {
-				e.NumReplied = -1
+				e.NumReplied = k
 				c.log = append(c.log, e)
+				if k == -2 {
+					return nil, errCallback
+				}
 				return nil, txsubmission.ErrStopServerProcess
 			}
 			e.NumReplied = k
 			e.First = c.serial + 1
-			out := make([]txsubmission.TxIdAndSize, k)
-			for i := range out {
-				c.serial++
-				out[i] = txsubmission.TxIdAndSize{TxId: mkTxId(c.serial), Size: uint32(100 + c.serial%1000)}
-			}
+			out := idsFor(c.serial+1, k, pl.Flav)
+			c.serial += uint64(k)
+			e.Ids = copyIds(out)
 			c.log = append(c.log, e)
+			if k == 0 && pl.NilEmpty {
+				return nil, nil
+			}
+			c.handedOut = append(c.handedOut, out)
 			return out, nil
 		}),
 		txsubmission.WithRequestTxsFunc(func(_ txsubmission.CallbackContext, ids []txsubmission.TxId) ([]txsubmission.TxBody, error) {
 			c.mu.Lock()
 			c.txsLog++
+			c.txsSeen = append(c.txsSeen, ids)
+			c.txsCopy = append(c.txsCopy, append([]txsubmission.TxId(nil), ids...))
 			c.mu.Unlock()
 			out := make([]txsubmission.TxBody, len(ids))
 			for i, id := range ids {
@@ -313,8 +432,13 @@ func nClass(n int) string {
 // c24Ctx carries what every family needs.
 type c24Ctx struct {
 	rec *evi.Recorder
-	rt  *rapid.T
+	tb  c24TB
 	cs  map[string]any
+	// sweep: the deterministic part outside rapid (failures are recorded with
+	// rec.Violation and do not stop the test)
+	sweep        bool
+	planA, planB rawpeer.Plan
+	indef        bool // raw client: indefinite-length id lists
 	nt  bool // the executed part of the history met the non-triviality rule
 	// settle is how long the harness waits after the server installed its new
 	// protocol instance before it starts the next session (a short wait keeps the
@@ -322,19 +446,33 @@ type c24Ctx struct {
 	settle time.Duration
 }
 
+// c24TB is what the families need from *rapid.T / *testing.T.
+type c24TB interface {
+	Fatalf(format string, args ...any)
+	Helper()
+}
+
+// fail reports a verdict; true means "listed as known, go on".
 func (x *c24Ctx) fail(key, what string) bool {
 	x.cs["goroutines"] = goroutineDump()
-	return x.rec.Fail(x.rt, key, what, x.cs)
+	if x.sweep {
+		cs := map[string]any{}
+		for k, v := range x.cs {
+			cs[k] = v
+		}
+		return x.rec.Violation(key, what, cs)
+	}
+	return x.rec.Fail(x.tb, key, what, x.cs)
 }
 
 // ---- family A: real server, real client -------------------------------------------------
 
 func c24RealReal(x *c24Ctx, ops []c24Op) {
-	rec, rt := x.rec, x.rt
+	rec, rt := x.rec, x.tb
 	cl := &c24Client{}
 	sv := newC24Server()
 	ccfg, scfg := cl.config(), sv.config()
-	planA, planB := bigSafePlan(rt, "a"), bigSafePlan(rt, "b")
+	planA, planB := x.planA, x.planB
 	x.cs["plans"] = planDesc(planA) + " | " + planDesc(planB)
 	p, err := newPair(true, planA, planB,
 		[]ouroboros.ConnectionOptionFunc{ouroboros.WithTxSubmissionConfig(ccfg)},
@@ -353,6 +491,41 @@ func c24RealReal(x *c24Ctx, ops []c24Op) {
 	var have []txsubmission.TxId // ids received by the inbound side in this session
 	prev := "start"
 	sessions := 1
+	// everything the inbound API returned is kept to the end of the history and
+	// compared with a copy taken at return time (a result must not change later)
+	type keptIds struct {
+		op        int
+		got, want []txsubmission.TxIdAndSize
+	}
+	type keptBodies struct {
+		op        int
+		got, want []txsubmission.TxBody
+	}
+	var kIds []keptIds
+	var kBodies []keptBodies
+	defer func() {
+		if p := recover(); p != nil {
+			panic(p)
+		}
+		rec.Eval()
+		for _, k := range kIds {
+			if !sameIds(k.got, k.want) {
+				x.fail("C24:A:returned-ids-changed-later", fmt.Sprintf("the %d ids RequestTxIds returned at op %d no longer equal what was returned then (first now %+v, then %+v)", len(k.want), k.op, firstId(k.got), firstId(k.want)))
+				return
+			}
+		}
+		for _, k := range kBodies {
+			for j := range k.want {
+				if k.got[j].EraId != k.want[j].EraId || !bytes.Equal(k.got[j].TxBody, k.want[j].TxBody) {
+					x.fail("C24:A:returned-bodies-changed-later", fmt.Sprintf("body %d RequestTxs returned at op %d changed after the return", j, k.op))
+					return
+				}
+			}
+		}
+		if i, changed := cl.txsChanged(); changed {
+			x.fail("C24:A:callback-txids-changed-later", fmt.Sprintf("the id list handed to RequestTxsFunc call %d changed after the callback returned", i))
+		}
+	}()
 	for i, o := range ops {
 		x.cs["failed_at_op"] = i
 		if o.Kind == "txs" {
@@ -372,6 +545,15 @@ func c24RealReal(x *c24Ctx, ops []c24Op) {
 			rec.Class("A:txs_round")
 			if len(bodies) != len(req) {
 				rt.Fatalf("RequestTxs returned %d bodies for %d ids", len(bodies), len(req))
+			}
+			kb := keptBodies{op: i, got: bodies}
+			for _, b := range bodies {
+				kb.want = append(kb.want, txsubmission.TxBody{EraId: b.EraId, TxBody: append([]byte(nil), b.TxBody...)})
+			}
+			kBodies = append(kBodies, kb)
+			// the caller re-uses its request slice
+			for j := range req {
+				req[j] = txsubmission.TxId{EraId: 0xFFFF}
 			}
 			prev = "txs"
 			continue
@@ -397,7 +579,7 @@ func c24RealReal(x *c24Ctx, ops []c24Op) {
 			continue
 		}
 		// valid request
-		cl.setPlan(o.K)
+		cl.setPlanOp(o)
 		oldInst := server.ProtocolInstance()
 		stuck := w.outstanding > 65535 // the whole backlog cannot be acknowledged in one message
 		var r idsResult
@@ -445,6 +627,22 @@ func c24RealReal(x *c24Ctx, ops []c24Op) {
 		}
 		if int(e.Ack) == w.outstanding && w.outstanding > 0 {
 			rec.Class("A:ack_equals_outstanding_nonzero")
+		}
+		if o.K == -2 {
+			// the application callback failed: the protocol is torn down; on a
+			// non-blocking request that must not be reported to the peer as Done
+			rec.Class("A:callback_error")
+			p.srvErr.waitDone(callWait)
+			rec.Eval()
+			x.nt = true
+			if !o.Blocking && sv.doneCount() >= sessions {
+				x.fail("C24:A:done-on-nonblocking:callback-error", fmt.Sprintf("op %d %s: the callback failed on a non-blocking request and the outbound side sent Done", i, o))
+			}
+			if r.err == nil {
+				x.fail("C24:A:reply-after-callback-error", fmt.Sprintf("op %d %s: RequestTxIds returned %d ids although the outbound callback failed", i, o, len(r.ids)))
+			}
+			x.cs["ended"] = "callback error: connection torn down"
+			return
 		}
 		if o.K < 0 {
 			// the outbound side asked to end the protocol
@@ -500,10 +698,21 @@ func c24RealReal(x *c24Ctx, ops []c24Op) {
 		if r.err != nil {
 			rt.Fatalf("op %d %s: unexpected error %v (client errs %v, server errs %v)", i, o, r.err, p.cliErr.list(), p.srvErr.list())
 		}
-		if len(r.ids) != e.NumReplied || (len(r.ids) > 0 && r.ids[0].TxId != mkTxId(e.First)) {
-			if x.fail("C24:A:ids-differ-from-reply:prev="+prev, fmt.Sprintf("op %d %s: outbound side replied %d ids starting at serial %d; RequestTxIds returned %d", i, o, e.NumReplied, e.First, len(r.ids))) {
+		if !sameIds(r.ids, e.Ids) {
+			if x.fail("C24:A:ids-differ-from-reply:prev="+prev, fmt.Sprintf("op %d %s: outbound side replied %d ids (first %+v); RequestTxIds returned %d (first %+v)", i, o, e.NumReplied, firstId(e.Ids), len(r.ids), firstId(r.ids))) {
 				return
 			}
+		}
+		if len(r.ids) <= 1000 {
+			kIds = append(kIds, keptIds{op: i, got: r.ids, want: copyIds(r.ids)})
+		}
+		// the application re-uses the slices it handed to the library
+		cl.scribble()
+		if o.Flav != "" {
+			rec.Class("A:reply_flavour_" + o.Flav)
+		}
+		if o.NilEmpty {
+			rec.Class("A:reply_nil_slice")
 		}
 		w.observe(uint64(e.Ack), e.NumReplied)
 		for _, id := range r.ids {
@@ -525,6 +734,13 @@ func c24RealReal(x *c24Ctx, ops []c24Op) {
 	x.cs["ended"] = "history complete"
 }
 
+func firstId(a []txsubmission.TxIdAndSize) string {
+	if len(a) == 0 {
+		return "-"
+	}
+	return fmt.Sprintf("%x../era%d/size%d", a[0].TxId.TxId[:10], a[0].TxId.EraId, a[0].Size)
+}
+
 // ---- family B: real server, raw client (wire observation) ---------------------------------
 
 // parseRequestTxIds parses [0, blocking, ack, req] with the independent parser.
@@ -543,11 +759,15 @@ func parseRequestTxIds(b []byte) (blocking bool, ack, req *xcbor.Node, err error
 	return bn.Arg == 21, n.Items[2], n.Items[3], nil
 }
 
-func replyTxIdsNode(first uint64, k int, indef bool) *xcbor.Node {
-	items := make([]*xcbor.Node, k)
-	for i := range items {
-		id := mkTxId(first + uint64(i))
-		items[i] = xcbor.A(xcbor.A(xcbor.U(uint64(id.EraId)), xcbor.B(append([]byte(nil), id.TxId[:]...))), xcbor.U(100+(first+uint64(i))%1000))
+// replyTxIdsNode encodes ids as MsgReplyTxIds; sizeOverride >= 0 replaces every size on the wire.
+func replyTxIdsNode(ids []txsubmission.TxIdAndSize, indef bool, sizeOverride int64) *xcbor.Node {
+	items := make([]*xcbor.Node, len(ids))
+	for i, id := range ids {
+		size := uint64(id.Size)
+		if sizeOverride >= 0 {
+			size = uint64(sizeOverride)
+		}
+		items[i] = xcbor.A(xcbor.A(xcbor.U(uint64(id.TxId.EraId)), xcbor.B(append([]byte(nil), id.TxId.TxId[:]...))), xcbor.U(size))
 	}
 	list := xcbor.A(items...)
 	if indef {
@@ -557,11 +777,11 @@ func replyTxIdsNode(first uint64, k int, indef bool) *xcbor.Node {
 }
 
 func c24RawClient(x *c24Ctx, ops []c24Op) {
-	rec, rt := x.rec, x.rt
+	rec, rt := x.rec, x.tb
 	sv := newC24Server()
 	scfg := sv.config()
-	planA, planB := bigSafePlan(rt, "a"), bigSafePlan(rt, "b")
-	indef := rapid.Bool().Draw(rt, "reply_indef")
+	planA, planB := x.planA, x.planB
+	indef := x.indef
 	x.cs["plans"] = planDesc(planA) + " | " + planDesc(planB)
 	h, err := listenRaw(planA, planB, ouroboros.WithTxSubmissionConfig(scfg))
 	if err != nil {
@@ -582,6 +802,19 @@ func c24RawClient(x *c24Ctx, ops []c24Op) {
 	var serial uint64
 	prev := "start"
 	sessions := 1
+	var kept [][2][]txsubmission.TxIdAndSize // returned slice, copy at return time
+	defer func() {
+		if p := recover(); p != nil {
+			panic(p)
+		}
+		rec.Eval()
+		for j, k := range kept {
+			if !sameIds(k[0], k[1]) {
+				x.fail("C24:B:returned-ids-changed-later", fmt.Sprintf("the ids returned by the %d-th answered request changed after the return (first now %s, then %s)", j+1, firstId(k[0]), firstId(k[1])))
+				return
+			}
+		}
+	}()
 	for i, o := range ops {
 		x.cs["failed_at_op"] = i
 		if o.Kind == "txs" {
@@ -734,7 +967,12 @@ func c24RawClient(x *c24Ctx, ops []c24Op) {
 		if k < 0 {
 			k = 0 // a raw client cannot end on a non-blocking request; answer empty
 		}
-		if err := h.peer.SendMsg(protoTxSubmission, false, replyTxIdsNode(serial+1, k, indef).Encode()); err != nil {
+		sent := idsFor(serial+1, k, o.Flav)
+		override := int64(-1)
+		if o.SizeBogus && k > 0 {
+			override = 1 << 32
+		}
+		if err := h.peer.SendMsg(protoTxSubmission, false, replyTxIdsNode(sent, indef, override).Encode()); err != nil {
 			rt.Fatalf("op %d %s: send reply: %v (server errs %v)", i, o, err, h.errs.list())
 		}
 		select {
@@ -742,13 +980,31 @@ func c24RawClient(x *c24Ctx, ops []c24Op) {
 		case <-time.After(replyWait(o)):
 			rt.Fatalf("op %d %s: RequestTxIds did not return after the reply\n%s", i, o, goroutineDump())
 		}
+		if override >= 0 {
+			// sizes beyond the 32-bit field: the reply cannot be represented; it must
+			// not come back with wrapped sizes
+			rec.Eval()
+			rec.Class("B:reply_size_2^32")
+			x.nt = true
+			if r.err == nil {
+				x.fail("C24:B:size-beyond-field-width-accepted", fmt.Sprintf("op %d %s: the reply carried size 2^32 for every id; RequestTxIds returned %d ids, first %s", i, o, len(r.ids), firstId(r.ids)))
+			}
+			x.cs["ended"] = "reply with sizes of 2^32 refused"
+			return
+		}
 		if r.err != nil {
 			rt.Fatalf("op %d %s: unexpected error %v (server errs %v)", i, o, r.err, h.errs.list())
 		}
-		if len(r.ids) != k || (k > 0 && r.ids[0].TxId != mkTxId(serial+1)) {
-			if x.fail("C24:B:ids-differ-from-reply:prev="+prev, fmt.Sprintf("op %d %s: raw client replied %d ids; RequestTxIds returned %d", i, o, k, len(r.ids))) {
+		if !sameIds(r.ids, sent) {
+			if x.fail("C24:B:ids-differ-from-reply:prev="+prev, fmt.Sprintf("op %d %s: raw client replied %d ids (first %s); RequestTxIds returned %d (first %s)", i, o, k, firstId(sent), len(r.ids), firstId(r.ids))) {
 				return
 			}
+		}
+		if k <= 1000 {
+			kept = append(kept, [2][]txsubmission.TxIdAndSize{r.ids, copyIds(r.ids)})
+		}
+		if o.Flav != "" {
+			rec.Class("B:reply_flavour_" + o.Flav)
 		}
 		serial += uint64(k)
 		w.observe(ackN.Arg, k)
@@ -843,8 +1099,13 @@ func genWireOps(rt *rapid.T, maxOps int) []c24Op {
 			o.Req = fmt.Sprint(rapid.SampledFrom([]int{0, 1, 2, 3, 5, 10, 255, 256, 65534, 65535}).Draw(rt, "req"))
 			o.Ack = "full" // resolved against the model when played: 0..outstanding
 			o.K = rapid.IntRange(0, 20).Draw(rt, "k")
-			if rapid.IntRange(0, 9).Draw(rt, "stop") == 0 {
+			o.Flav = rapid.SampledFrom([]string{"", "", "zeros", "dups", "sizes"}).Draw(rt, "flav")
+			o.NilEmpty = o.K == 0 && rapid.Bool().Draw(rt, "nil_empty")
+			switch rapid.IntRange(0, 11).Draw(rt, "stop") {
+			case 0:
 				o.K = -1
+			case 1:
+				o.K = -2
 			}
 			if rapid.IntRange(0, 4).Draw(rt, "widen") == 0 {
 				o.WidthA = rapid.SampledFrom([]int{1, 2, 4, 8}).Draw(rt, "wa")
@@ -877,10 +1138,10 @@ func genWireOps(rt *rapid.T, maxOps int) []c24Op {
 }
 
 func c24RawServer(x *c24Ctx, ops []c24Op) {
-	rec, rt := x.rec, x.rt
+	rec, rt := x.rec, x.tb
 	cl := &c24Client{}
 	ccfg := cl.config()
-	planA, planB := genPlan(rt, "a"), genPlan(rt, "b")
+	planA, planB := x.planA, x.planB
 	x.cs["plans"] = planDesc(planA) + " | " + planDesc(planB)
 	h, err := dialRaw(true, planA, planB, ouroboros.WithTxSubmissionConfig(ccfg))
 	if err != nil {
@@ -931,11 +1192,7 @@ func c24RawServer(x *c24Ctx, ops []c24Op) {
 		nonMinimal := !ackN.IsCanonicalForm() || !reqN.IsCanonicalForm()
 		msg := xcbor.A(xcbor.U(0), xcbor.Bool(o.Blocking), ackN, reqN).Encode()
 		x.cs["wire_msg"] = fmt.Sprintf("%x", msg)
-		if o.K != 0 {
-			cl.setPlan(o.K)
-		} else {
-			cl.setPlan(0)
-		}
+		cl.setPlanOp(o)
 		if err := h.peer.SendMsg(protoTxSubmission, true, msg); err != nil {
 			rt.Fatalf("send: %v", err)
 		}
@@ -1003,6 +1260,14 @@ func c24RawServer(x *c24Ctx, ops []c24Op) {
 		if o.K < 0 {
 			// stop sentinel
 			isDone := len(reply) == 2 && reply[0] == 0x81 && reply[1] == 0x04
+			if o.Blocking && o.K == -2 {
+				rec.Class("C:callback_error_on_blocking")
+				x.cs["ended"] = "callback error on a blocking request (any ending is allowed)"
+				return
+			}
+			if o.K == -2 {
+				rec.Class("C:callback_error_on_nonblocking")
+			}
 			if o.Blocking {
 				rec.Class("C:stop_on_blocking")
 				if !isDone {
@@ -1039,6 +1304,24 @@ func c24RawServer(x *c24Ctx, ops []c24Op) {
 		if len(rn.Items[1].Items) != e.NumReplied {
 			rt.Fatalf("op %d %s: reply carries %d ids, callback returned %d", i, o, len(rn.Items[1].Items), e.NumReplied)
 		}
+		// the reply on the wire is what the callback returned (all-zero ids, duplicates,
+		// sizes 0 and 2^32-1, nil slice included)
+		rec.Eval()
+		for j, it := range rn.Items[1].Items {
+			want := e.Ids[j]
+			ok := it.Kind == xcbor.Array && len(it.Items) == 2 && it.Items[0].Kind == xcbor.Array && len(it.Items[0].Items) == 2 &&
+				it.Items[0].Items[0].Kind == xcbor.Uint && it.Items[0].Items[0].Arg == uint64(want.TxId.EraId) &&
+				bytes.Equal(it.Items[0].Items[1].Payload(), want.TxId.TxId[:]) &&
+				it.Items[1].Kind == xcbor.Uint && it.Items[1].Arg == uint64(want.Size)
+			if !ok {
+				x.fail("C24:C:wire-reply-differs-from-callback", fmt.Sprintf("op %d %s: id %d of the reply on the wire (%x) is not what the callback returned (%s)", i, o, j, reply[:min(len(reply), 120)], firstId(e.Ids[j:])))
+				return
+			}
+		}
+		if o.Flav != "" {
+			rec.Class("C:reply_flavour_" + o.Flav)
+		}
+		cl.scribble()
 		w.observe(uint64(ackV), e.NumReplied)
 	}
 	x.cs["ended"] = "history complete"
